@@ -154,7 +154,7 @@ def specQuery (h : History) (fs : List String) : String :=
     | none => "none"
   | ["q", "latest", id] =>
     let a := nat! id
-    let cs := (h.cidxs.eraseDups.mergeSort (fun x y => x ≤ y))
+    let cs := ((dedup h.cidxs).mergeSort (fun x y => x ≤ y))
     let part (t : CType) (f : ResVal → Option Nat) : String :=
       ",".intercalate (cs.filterMap (fun c => (f (resAt h latest a c t)).map (fun v => s!"{c}:{v}")))
     s!"ok r={latest} {(acctAt h latest a).bal} AP[{part .asset (·.params)}] AH[{part .asset (·.hold)}] LP[{part .app (·.params)}] LH[{part .app (·.hold)}]"
